@@ -40,12 +40,25 @@ func (p c06) Run(c *core.Ctx) {
 		hm.POptional = 0.9
 		holders = append(holders, LiteralHolder(c.Rng, h, 1+c.Rng.Intn(4), g.Sc, hm))
 	}
-	repairUnsatisfiable(c, g, holders, 0.85)
-	runModelCase(c, g, holders, 4, true, nil)
+	lean := LeanProviders(c.Rng)
+	repairUnsatisfiable(c, g, holders, 0.85, lean...)
+	runModelCase(c, g, holders, 4, true, nil, nil, lean)
 }
 
 // runModelCase starts the scenario under `orders` order settings and compares each with the model.
-func runModelCase(c *core.Ctx, g *world.G, holders []any, orders int, strict bool, classify func(r *world.Run, ps []problem, exp world.Expect) string, nontrivial ...func(exp world.Expect) bool) {
+func runModelCase(c *core.Ctx, g *world.G, holders []any, orders int, strict bool, classify func(r *world.Run, ps []problem, exp world.Expect) string, more ...any) {
+	var nontrivial []func(exp world.Expect) bool
+	var providers []any
+	for _, m := range more {
+		switch x := m.(type) {
+		case func(exp world.Expect) bool:
+			if x != nil {
+				nontrivial = append(nontrivial, x)
+			}
+		case []any:
+			providers = x
+		}
+	}
 	sc := g.Sc
 	var hdesc []string
 	for _, h := range holders {
@@ -59,7 +72,7 @@ func runModelCase(c *core.Ctx, g *world.G, holders []any, orders int, strict boo
 				resetHolder(h)
 			}
 		}
-		r := world.Start(sc, world.Options{Extra: holders})
+		r := world.Start(sc, world.Options{Extra: append(append([]any{}, holders...), providers...)})
 		c.Count("starts", 1)
 		c.Count("outcome_"+r.Outcome(), 1)
 		ps, exp := evalAgainstModel(r, strict, holders...)
@@ -108,8 +121,8 @@ func runModelCase(c *core.Ctx, g *world.G, holders []any, orders int, strict boo
 // repairUnsatisfiable makes most required points without candidate optional (a dry start supplies
 // the registered population for the model), so that the majority of starts is expected to succeed.
 // The decision is a pure function of the case's PRNG.
-func repairUnsatisfiable(c *core.Ctx, g *world.G, holders []any, p float64) {
-	r := world.Start(g.Sc, world.Options{Extra: holders})
+func repairUnsatisfiable(c *core.Ctx, g *world.G, holders []any, p float64, providers ...any) {
+	r := world.Start(g.Sc, world.Options{Extra: append(append([]any{}, holders...), providers...)})
 	pop := world.Describe(r.Population())
 	for _, pr := range r.NodePoints(pop) {
 		if pr.Res.Required && len(pr.Res.S) == 0 && !pr.Res.Unsupported && c.Rng.Float64() < p {
